@@ -211,3 +211,39 @@ Proof.
   cbn [parent_empty prefix fix_loop hparent].
   apply find_anc_prefix_stuck; [exact Hp|]. apply matches_parent_nil; assumption.
 Qed.
+
+(* ---- characterisation of the configuration specification ---- *)
+Definition nothing_at (s : est) (h : hdr) (j : nat) : Prop :=
+  alookup (dbc s) (N.of_nat j) = None /\ announced (e_tree s) (ncd s) (N.of_nat j) h = [].
+
+Lemma spec_config_char : forall s h k d, In d (spec_config_n s k h) ->
+  (d = genesis_id /\ forall j, (0 < j <= k)%nat -> nothing_at s h j)
+  \/ exists j, (0 < j <= k)%nat
+       /\ (alookup (dbc s) (N.of_nat j) = Some d
+           \/ (alookup (dbc s) (N.of_nat j) = None /\ In d (announced (e_tree s) (ncd s) (N.of_nat j) h)))
+       /\ forall j', (j < j' <= k)%nat -> nothing_at s h j'.
+Proof.
+  intros s h. induction k as [|k IH]; intros d H.
+  - cbn in H. destruct H as [<-|[]]. left. split; [reflexivity|]. intros j Hj. lia.
+  - cbn [spec_config_n] in H.
+    destruct (alookup (dbc s) (N.of_nat (S k))) as [d0|] eqn:D.
+    + destruct H as [<-|[]]. right. exists (S k). split; [lia|]. split; [left; exact D|]. intros j' Hj'. lia.
+    + destruct (announced (e_tree s) (ncd s) (N.of_nat (S k)) h) as [|x r] eqn:A.
+      * destruct (IH d H) as [[E N]|[j [Hj [Hd N]]]].
+        -- left. split; [exact E|]. intros j Hj.
+           destruct (Nat.eq_dec j (S k)) as [->|Hne]; [split; assumption | apply N; lia].
+        -- right. exists j. split; [lia|]. split; [exact Hd|]. intros j' Hj'.
+           destruct (Nat.eq_dec j' (S k)) as [->|Hne]; [split; assumption | apply N; lia].
+      * right. exists (S k). split; [lia|]. split; [right; split; [exact D | rewrite A; exact H]|].
+        intros j' Hj'. lia.
+Qed.
+
+Lemma get_epoch_data_prefix_hangs : forall s e i entries, wf (e_tree s) = true -> e <> 0 ->
+  alookup (dbe s) e = None -> alookup (ned s) e = Some entries ->
+  i <> O -> parent (e_tree s) i <> O -> matches (e_tree s) entries (Imp i) = [] ->
+  forall fuel, get_epoch_data prefix fuel s e (Imp i) = OutOfFuel.
+Proof.
+  intros s e i entries W E D L Hi Hp M fuel. unfold get_epoch_data, retrieve.
+  apply N.eqb_neq in E. rewrite E, D, L.
+  rewrite find_anc_prefix_diverges by assumption. reflexivity.
+Qed.
